@@ -646,7 +646,10 @@ type shadowRec struct {
 	Objs  []sceneObj `json:"objs"`
 	Light []int      `json:"light"`
 	Pts   []shadowPt `json:"pts"`
-	Panic string     `json:"panic"`
+	// Sums: per pixel, in 1e-6 units: the tracer under light A, light B (below the ground), [A, B], [B, A]; the ray
+	// caster under A, B, [A, B], [B, A]  (-1: a channel differs or a value is out of range)
+	Sums  [][]int `json:"sums"`
+	Panic string  `json:"panic"`
 }
 
 func shadowRun(id int, rng *rand.Rand) shadowRec {
@@ -682,6 +685,36 @@ func shadowRun(id int, rng *rand.Rand) shadowRec {
 		}},
 	}
 	rec.Panic = protect(func() { rt.Render(img, parts) })
+	// several lights, in both orders: the picture is the sum of the pictures under each light
+	rec.Sums = make([][]int, w*h)
+	if rec.Panic == "" {
+		la := rt.Lights[0]
+		lb := &render3d.PointLight{Origin: model3d.XYZ(float64(ev(7)), float64(ev(7)), -float64(3+rng.Intn(9))), Color: render3d.NewColor(1)}
+		lc := &render3d.PointLight{Origin: model3d.XYZ(float64(ev(7)), float64(ev(7)), float64(5+rng.Intn(9))), Color: render3d.NewColor(0.5)}
+		sets := [][]*render3d.PointLight{{la}, {lb, lc}, {la, lb, lc}, {lb, lc, la}}
+		rec.Panic = protect(func() {
+			for k := 0; k < 8; k++ {
+				im := render3d.NewImage(w, h)
+				if k < 4 {
+					(&render3d.RecursiveRayTracer{Camera: cam, NumSamples: 1, MaxDepth: 0, Lights: sets[k]}).Render(im, parts)
+				} else {
+					(&render3d.RayCaster{Camera: cam, Lights: sets[k-4]}).Render(im, parts)
+				}
+				for i, c := range im.Data {
+					v := int(math.Round(c.X * 1e6))
+					if c.X != c.Y || c.Y != c.Z || c.X < 0 || c.X > 4 || math.IsNaN(c.X) {
+						v = -1
+					}
+					rec.Sums[i] = append(rec.Sums[i], v)
+				}
+			}
+		})
+	}
+	for i := range rec.Sums {
+		if rec.Sums[i] == nil {
+			rec.Sums[i] = []int{}
+		}
+	}
 	caster := cam.Caster(w-1, h-1)
 	for y := 0; y < h; y++ {
 		for x := 0; x < w; x++ {
